@@ -1038,6 +1038,7 @@ def c06(tier, rng, fam='C06'):
     # are answered with at most a reset: nothing follows a stream's trailer, no second handler runs
     out += late_messages(fam)
     out += late_body_before_trailer(fam)
+    out += body_in_hand_at_return(fam)
     out += unencodable_send(fam)
     out += unencodable_elsewhere(fam)
     out += failed_opens(fam)
@@ -1235,6 +1236,8 @@ def c04(tier, rng, fam='C04'):
     out += concurrent_header_and_send(fam, 10 if tier == 'quick' else 200)
     out += same_key_other_case(fam, 9 if tier == 'quick' else 90)
     out += [x for x in unencodable_elsewhere(fam) if 'sets headers' in x['tag']]
+    # header / trailer calls in unusual order (Trailer before the end, Header again and again, SendHeader twice ...)
+    out += [x for x in legal_oddities(fam) if any(w in x['tag'] for w in ('Trailer', 'Header', 'SetTrailer', 'SetHeader', 'SendHeader'))]
     return out
 
 
@@ -1990,6 +1993,32 @@ def no_metadata_at_all(fam):
             b.step('sopen', c=5, kind='cs', hp=[dict(o='drain'), dict(o='send', pay='sum'), ret()])
             b.step('send', c=5, pay='x').step('send', c=5, pay='y').step('close', c=5).step('recv', c=5, n=2)
             out.append(b.q().done())
+    return out
+
+
+def body_in_hand_at_return(fam):
+    """the server's read loop has READ a message (the stream was registered then) but not yet looked the stream up
+    (srv.forward.window) when the handler returns: the message is answered with a reset - after the trailer - or
+    dropped, and the caller sees the handler's status"""
+    out = []
+    for kind in ('bidi', 'cs'):
+        for code in (0, 9):
+            for nbefore in (0, 1, 2):
+                b = B(fam, '%s: message %d in the read loop\'s hand while the handler returns %s' % (kind, nbefore, 'an error' if code else 'ok'), ser=bool(nbefore % 2))
+                b.step('sopen', c=1, kind=kind, hp=[dict(o='recv')] * nbefore)
+                for i in range(nbefore):
+                    b.step('send', c=1, pay='m%d' % i)
+                b.q()
+                b.step('arm', gate='srv.forward.window', n=1)
+                b.step('send', c=1, pay='held')
+                b.q()
+                b.step('hop', c=1, h=ret(code=code, msg='early' if code else ''))
+                b.q()
+                b.step('rel', gate='srv.forward.window')
+                b.q()
+                b.step('recv', c=1, n=2)
+                b.step('ucall', c=2, pay='probe', hp=[ret(pay='fine')])
+                out.append(b.q().done())
     return out
 
 
